@@ -904,8 +904,27 @@ def _h(b):
 
 
 def response_plain(data, v):
-    """[{op, bid, status, reason, message, payload}] using the library decoder."""
-    m = decode_response(data, v)
+    """[{op, bid, status, reason, message, payload}] using the library decoder; when the library
+    cannot decode the server's response (a codec defect, judged by C01/C19) fall back to the
+    independent parser: payload is then None and 'undecodable' is set."""
+    try:
+        m = decode_response(data, v)
+    except Exception as e:
+        out = []
+        for it in ttlvref.response_items(data):
+            def nm(cls, val):
+                try:
+                    return None if val is None else cls(val).name
+                except ValueError:
+                    return "UNKNOWN_%s" % val
+            op = nm(enums.Operation, it["operation"])
+            out.append({"op": OP_NAME.get(enums.Operation(it["operation"]), op) if it["operation"] is not None and op and not op.startswith("UNKNOWN") else op,
+                        "bid": None if it["batch_id"] is None else bytes(it["batch_id"]).hex(),
+                        "status": nm(enums.ResultStatus, it["status"]),
+                        "reason": nm(enums.ResultReason, it["reason"]),
+                        "message": it["message"], "payload": None,
+                        "undecodable": "%s: %s" % (type(e).__name__, e)})
+        return out
     out = []
     for bi in m.batch_items:
         op = None if bi.operation is None else bi.operation.value
